@@ -1,7 +1,7 @@
 (* C19 -- Entrez client stays within the request rate and reuses its file cache. Statements only. *)
 From Coq Require Import List ZArith Bool NArith.
 Import ListNotations.
-From SV Require Import Text G_entrez C19_Model C19_Lemmas.
+From SV Require Import Text G_entrez C19_Model C19_Lemmas C19_Rate2.
 Open Scope Z_scope.
 
 (* for every call history (arrival gaps, sleep overshoots, request durations all arbitrary non-negative): the request N
@@ -71,6 +71,53 @@ Theorem C19_cache_once_const : forall (server : N -> str) f pre c p mid c2 p2,
   exists v, fetch f' c2 = (f', (false, v)) /\ v <> [].
 Proof. exact cache_once_const. Qed.
 Print Assumptions C19_cache_once_const.
+
+(* ---- round 7: the limit is chosen per call (client.api_key may change between calls) ---- *)
+(* ANY history, the key free to change at every call: no half-open one-second window [x, x + W), x any integer tick (hence any
+   real x: the starts are integer ticks), contains more than the larger limit of request starts; failed requests count as starts *)
+Theorem C19_window_limit_any_key : forall cs x, Forall (fun kc => call_ok (snd kc)) cs ->
+  (count_in_window window x (hist (run2 cs)) <= limit true)%nat.
+Proof. exact window_limit_mixed. Qed.
+Print Assumptions C19_window_limit_any_key.
+
+(* a key added later: the keyless requests (a prefix) obey the small limit, the whole history the large one *)
+Theorem C19_key_added_later : forall a b x, Forall call_ok a -> Forall call_ok b ->
+  let h1 := hist (run2 (map (pair false) a)) in
+  let h := hist (run2 (map (pair false) a ++ map (pair true) b)) in
+  (count_in_window window x h1 <= limit false)%nat /\ (count_in_window window x h <= limit true)%nat /\
+  exists new, h = new ++ h1 /\ length new = length b.
+Proof. exact key_added_later. Qed.
+Print Assumptions C19_key_added_later.
+
+(* a key REMOVED from a client that has used it: the deque never shrinks, and more than the keyless limit of keyless requests
+   start within one window (PENDING FIX keyswitch) *)
+Theorem C19_key_removed_refuted :
+  exists pre post x, forallb call_okb (pre ++ post) = true /\
+    let h := hist (run2 (map (pair true) pre ++ map (pair false) post)) in
+    (limit false <? count_in_window window x (firstn (length post) h))%nat = true.
+Proof. exact key_removed_refuted. Qed.
+Print Assumptions C19_key_removed_refuted.
+
+(* sleep is called exactly when the popleft branch is taken and the popped stamp is younger than the window (any state) *)
+Theorem C19_wait_sleeps_iff : forall N W d t e, 0 <= e ->
+  (snd (wait N W d t e) <> 0 <-> (N <= length d)%nat /\ exists prev rest, d = prev :: rest /\ t - prev < W).
+Proof. exact wait_sleeps_iff. Qed.
+Print Assumptions C19_wait_sleeps_iff.
+
+(* "never sleeps when the window is free" as an iff: in a reachable state the client sleeps exactly when N requests started
+   within the last second before the caller's arrival (starting at once would make N + 1 starts in one window) *)
+Theorem C19_sleep_iff_window_full : forall api cs c, Forall call_ok cs -> call_ok c ->
+  let s := run (limit api) window cs in let t := now s + gap c in
+  snd (wait (limit api) window (dq s) t (eps c)) <> 0 <->
+  (limit api <= length (filter (fun x => (t - window <? x)%Z) (hist s)))%nat.
+Proof. exact shipped_sleep_iff_window_full. Qed.
+Print Assumptions C19_sleep_iff_window_full.
+
+(* non-vacuity: a history that switches the key on and off *)
+Example C19_witness_keys :
+  let cs := [(false, c0); (true, c0); (true, c0); (true, c0); (false, c0); (false, c0)] in
+  Forall (fun kc => call_ok (snd kc)) cs /\ rev (hist (run2 cs)) = [0; 0; 0; 0; 1024; 1024].
+Proof. exact witness_keys. Qed.
 
 (* non-vacuity: a burst of five immediate calls without API key; the 4th must wait a full window *)
 Example C19_witness :
